@@ -96,6 +96,8 @@ func classify(file string) (frameClass, string) {
 	case strings.Contains(file, "/repo/pkg/") || strings.Contains(file, "/repo/cmd/"):
 		i := strings.Index(file, "/repo/")
 		return fLib, file[i+len("/repo/"):]
+	case strings.Contains(file, "/harness/sim/canon/"):
+		return fCaller, file // the canonicaliser reads caller-held values: that is caller behaviour
 	case strings.Contains(file, "/shim/sim") || strings.Contains(file, "/harness/sim/"):
 		return fSim, file
 	case strings.Contains(file, "/harness/"):
